@@ -323,3 +323,187 @@ def _arg_for(callee: FuncInfo, call: ast.Call, pname: str, ctor: bool = False) -
         if idx < len(call.args) and not any(isinstance(x, ast.Starred) for x in call.args[: idx + 1]):
             return call.args[idx]
     return None
+
+
+# ---------------------------------------------------------------------------
+BUILTIN_BASES = {
+    "BaseException": [], "Exception": ["BaseException"], "ValueError": ["Exception"], "TypeError": ["Exception"],
+    "RuntimeError": ["Exception"], "KeyError": ["LookupError"], "IndexError": ["LookupError"], "LookupError": ["Exception"],
+    "OverflowError": ["ArithmeticError"], "ArithmeticError": ["Exception"], "ZeroDivisionError": ["ArithmeticError"],
+    "UnicodeError": ["ValueError"], "UnicodeDecodeError": ["UnicodeError"], "UnicodeEncodeError": ["UnicodeError"],
+    "AttributeError": ["Exception"], "RecursionError": ["RuntimeError"], "NotImplementedError": ["RuntimeError"],
+    "StopIteration": ["Exception"], "OSError": ["Exception"], "AssertionError": ["Exception"], "UserWarning": ["Exception"],
+    "binascii.Error": ["ValueError"], "json.JSONDecodeError": ["ValueError"], "decimal.InvalidOperation": ["ArithmeticError"],
+    "InvalidOperation": ["ArithmeticError"],
+}
+
+
+class Raises:
+    """Explicit-raise effect summaries: which exception classes may leave a
+    function, through explicit `raise` statements in it and in the btclib
+    functions it calls (resolved calls only), minus what enclosing handlers
+    catch. Implicit raises of builtins are not modelled here."""
+
+    def __init__(self, ctx: Ctx, depth: int = 6):
+        self.ctx = ctx
+        self.depth = depth
+        self._memo: dict[str, frozenset[str]] = {}
+        self._busy: set[str] = set()
+        self._by_method: dict[str, list[FuncInfo]] | None = None
+
+    # class hierarchy ---------------------------------------------------
+    def bases(self, cls: str) -> list[str]:
+        if cls in BUILTIN_BASES:
+            return BUILTIN_BASES[cls]
+        ci = self.ctx.prog.classes.get(cls)
+        if ci is None:
+            return ["Exception"]
+        out = []
+        for b in ci.node.bases:
+            t = self.ctx.prog.resolve_name(ci.module, b)
+            if t:
+                out.append(t)
+        return out
+
+    def is_subclass(self, cls: str, sup: str, _d: int = 0) -> bool:
+        if cls == sup:
+            return True
+        if _d > 10:
+            return False
+        return any(self.is_subclass(b, sup, _d + 1) for b in self.bases(cls))
+
+    def caught_by(self, cls: str, handlers: list[str]) -> bool:
+        return any(self.is_subclass(cls, h) for h in handlers)
+
+    # summaries -----------------------------------------------------------
+    def of(self, fi: FuncInfo, depth: int | None = None) -> frozenset[str]:
+        d = self.depth if depth is None else depth
+        q = fi.qualname
+        if q in self._memo:
+            return self._memo[q]
+        if q in self._busy or d < 0:
+            return frozenset()
+        self._busy.add(q)
+        try:
+            out = self._stmts(fi, fi.node.body, d, [])
+        finally:
+            self._busy.discard(q)
+        r = frozenset(out)
+        if d == self.depth or not self._busy:
+            self._memo[q] = r
+        return r
+
+    def _methods_named(self, name: str) -> list[FuncInfo]:
+        if self._by_method is None:
+            idx: dict[str, list[FuncInfo]] = {}
+            for ci in self.ctx.prog.classes.values():
+                for n, m in ci.methods.items():
+                    idx.setdefault(n, []).append(m)
+            self._by_method = idx
+        return self._by_method.get(name, [])
+
+    def callee_funcs(self, fi: FuncInfo, call: ast.Call) -> list[FuncInfo]:
+        tgt = self.ctx.resolve_call(fi, call)
+        prog = self.ctx.prog
+        if tgt in prog.functions:
+            return [prog.functions[tgt]]
+        if tgt in prog.classes:
+            out = []
+            for nm in ("__init__", "__post_init__"):
+                m = prog.lookup_method(prog.classes[tgt], nm)
+                if m is not None:
+                    out.append(m)
+            return out
+        # Class.method via a class-typed name (cls.parse, Sig.parse resolved above); unresolved receiver:
+        if isinstance(call.func, ast.Attribute):
+            cands = self._methods_named(call.func.attr)
+            # accept when the name is specific enough: all candidates belong to <= 3 classes
+            if 1 <= len(cands) <= 3 and not call.func.attr.startswith("__"):
+                return cands
+        return []
+
+    def call_raises(self, fi: FuncInfo, call: ast.Call, d: int) -> set[str]:
+        out: set[str] = set()
+        if d <= 0:
+            return out
+        for callee in self.callee_funcs(fi, call):
+            out |= self.of(callee, d - 1)
+        return out
+
+    def expr_raises(self, fi: FuncInfo, e: ast.AST | None, d: int) -> set[str]:
+        out: set[str] = set()
+        if e is None:
+            return out
+        for n in ast.walk(e):
+            if isinstance(n, ast.Call):
+                out |= self.call_raises(fi, n, d)
+        return out
+
+    def _raise_class(self, fi: FuncInfo, st: ast.Raise, handler_stack: list[list[str]]) -> set[str]:
+        if st.exc is None:
+            return {"<reraise>"}
+        e = st.exc.func if isinstance(st.exc, ast.Call) else st.exc
+        tgt = self.ctx.prog.resolve_name(fi.module, e, fi) or norm(e)
+        fn = self.ctx.prog.functions.get(tgt)
+        if fn is not None and fn.node.returns is not None:
+            r = self.ctx.prog.resolve_name(fn.module, fn.node.returns, fn)
+            if r:
+                return {r}
+        if isinstance(st.exc, ast.Name) and tgt not in self.ctx.prog.classes and tgt not in BUILTIN_BASES:
+            return {"<reraise>"}  # raise e
+        return {tgt}
+
+    def _stmts(self, fi: FuncInfo, stmts: list[ast.stmt], d: int, hs: list[list[str]]) -> set[str]:
+        out: set[str] = set()
+        for st in stmts:
+            if isinstance(st, (ast.FunctionDef, ast.AsyncFunctionDef, ast.ClassDef)):
+                continue
+            if isinstance(st, ast.Raise):
+                out |= self._raise_class(fi, st, hs)
+                out |= self.expr_raises(fi, st.exc, d)
+            elif isinstance(st, ast.Try):
+                body = self._stmts(fi, st.body, d, hs)
+                caught_names: list[str] = []
+                handler_out: set[str] = set()
+                for h in st.handlers:
+                    if h.type is None:
+                        names = ["BaseException"]
+                    else:
+                        names = []
+                        for e in (h.type.elts if isinstance(h.type, ast.Tuple) else [h.type]):
+                            names.append(self.ctx.prog.resolve_name(fi.module, e, fi) or norm(e))
+                    hb = self._stmts(fi, h.body, d, hs)
+                    if "<reraise>" in hb:
+                        hb.discard("<reraise>")
+                        # what was caught by this handler leaves again
+                        hb |= {c for c in body if self.caught_by(c, names) and not self.caught_by(c, caught_names)}
+                    handler_out |= hb
+                    caught_names += names
+                out |= {c for c in body if not self.caught_by(c, caught_names)}
+                out |= handler_out
+                out |= self._stmts(fi, st.orelse, d, hs)
+                out |= self._stmts(fi, st.finalbody, d, hs)
+            elif isinstance(st, (ast.With, ast.AsyncWith)):
+                sup: list[str] = []
+                for it in st.items:
+                    c = it.context_expr
+                    out |= self.expr_raises(fi, c, d)
+                    if isinstance(c, ast.Call) and norm(c.func).split(".")[-1] == "suppress":
+                        sup += [self.ctx.prog.resolve_name(fi.module, a, fi) or norm(a) for a in c.args]
+                body = self._stmts(fi, st.body, d, hs)
+                out |= {c for c in body if not self.caught_by(c, sup)} if sup else body
+            elif isinstance(st, (ast.If, ast.While)):
+                out |= self.expr_raises(fi, st.test, d)
+                out |= self._stmts(fi, st.body, d, hs)
+                out |= self._stmts(fi, st.orelse, d, hs)
+            elif isinstance(st, (ast.For, ast.AsyncFor)):
+                out |= self.expr_raises(fi, st.iter, d)
+                out |= self._stmts(fi, st.body, d, hs)
+                out |= self._stmts(fi, st.orelse, d, hs)
+            elif isinstance(st, ast.Match):
+                out |= self.expr_raises(fi, st.subject, d)
+                for c in st.cases:
+                    out |= self._stmts(fi, c.body, d, hs)
+            else:
+                out |= self.expr_raises(fi, st, d)
+        return out
